@@ -282,10 +282,22 @@ func isSupportedMethod(method string) bool {
 //	"{id:\d+}"
 //	"{id:(?:\d+)}"
 func (r *Route) goodRegexString(n, v string) {
-	pos := strings.IndexByte(v, '(')
-
-	if pos != -1 && pos < len(v) && v[pos+1] != '?' {
-		goutil.Panicf("invalid path var regex string, dont allow char '('. var: %s, regex: %s", n, v)
+	inClass := false
+	for pos := 0; pos < len(v); pos++ {
+		switch c := v[pos]; {
+		case c == '\\': // escaped char
+			pos++
+		case inClass:
+			inClass = c != ']'
+		case c == '[':
+			inClass = true
+		case c == '(':
+			// only "(?:...)" and flag groups like "(?i)" do not capture
+			rest := v[pos+1:]
+			if !strings.HasPrefix(rest, "?") || strings.HasPrefix(rest, "?P") || strings.HasPrefix(rest, "?<") {
+				goutil.Panicf("invalid path var regex string, dont allow char '('. var: %s, regex: %s", n, v)
+			}
+		}
 	}
 }
 
